@@ -609,6 +609,35 @@ def _r6(rep, src, label, full):
                      where=rd.where)
     except H.Raised as x:
         rep.fail('C20.R3', rd.site, what, 'raises %s (line %d)' % (x.exc, x.lineno), where=rd.where)
+    # histories over reads and views: a collection that is read AGAIN after a reverse() view was taken answers -- itself and through a
+    # view taken afterwards -- with the relation it holds now (a view, a count, an index remembered from before the second read is stale)
+    dbinit = src.mod(M).funcs.get('DB.__init__')
+    first = ['pkg-one: role::a, role::b\n', 'pkg-two: role::b\n']
+    for second, how in ((['pkg-new, pkg-one: use::e\n', 'pkg-lonely\n'], 'read'),):
+        heap, it, me = _world(src, {})
+        what = 'reverse() after a second read() shows the collection as it is now'
+        try:
+            if dbinit is not None:
+                it.call(H.Closure(dbinit.node, {}, me, dbinit.cls), [])
+            it.call(H.Closure(rd.node, {}, me, rd.cls), [heap.new_list(list(first)), None])
+            v1 = it.call(H.Closure(rev.node, {}, me, rev.cls), [])
+            it.call(H.Closure(rd.node, {}, me, rd.cls), [heap.new_list(list(second)), None])
+            v2 = it.call(H.Closure(rev.node, {}, me, rev.cls), [])
+            now_db, _a = _plain(heap, heap.objs[me.name]['db'])
+            now_rdb, _b = _plain(heap, heap.objs[me.name]['rdb'])
+            v_db, _c = _plain(heap, heap.objs[v2.name]['db'])
+            v_rdb, _d = _plain(heap, heap.objs[v2.name]['rdb'])
+            inv_now = {k: frozenset(v) for k, v in _inverse(now_db or {}).items()}
+            if {k: v for k, v in (now_rdb or {}).items() if v} != inv_now:
+                rep.fail('C20.R3', rd.site, what, 'after the second read the collection itself has db = %s and rdb = %s' % (now_db, now_rdb), where=rd.where)
+            elif v_db != now_rdb or v_rdb != now_db:
+                rep.fail('C20.R3', rev.site, what, 'read(A); reverse(); read(B); reverse(): the second view lists the tags %s; the collection now holds the tags %s -- a view (or an index) '
+                         'remembered from before the second read is handed out again' % (sorted(v_db or {}), sorted(now_rdb or {})), where=rev.where)
+            else:
+                rep.ok('C20.R3', rev.site, what, 'read, reverse, read, reverse: the second view is the inverse of the collection as it is now')
+            _ = v1
+        except H.Raised as x:
+            rep.fail('C20.R3', rev.site, what, 'raises %s (line %d)' % (x.exc, x.lineno), where=rev.where)
     # queries answer from the right index
     queries = {'has_package': (['pkg-two'], True), 'has_tag': (['use::c'], True), 'tags_of_package': (['pkg-three'], {'role::b', 'use::c'}),
                'packages_of_tag': (['role::b'], {'pkg-one', 'pkg-two', 'pkg-three'}), 'card': (['role::b'], 3), 'package_count': ([], len(GEN)),
